@@ -3,6 +3,8 @@ package main
 import (
 	"errors"
 	"fmt"
+	"sort"
+	"strings"
 	"time"
 
 	"github.com/biscuit-auth/biscuit-go/v2/datalog"
@@ -260,10 +262,74 @@ func runC05(res *Result, rng *RNG, tier string, outDir string) {
 		if o.Panic != "" || o.Err == "ETimeout" {
 			continue
 		}
+		if len(p.Rules) > 0 && i%5 == 0 {
+			cloneCheck(res, p, o, []int{3, 5, 6, 7, 0, 1}[(i/5)%6])
+		}
 		lines = append(lines, p.coqCase(o))
 		res.CaseDescs = append(res.CaseDescs, "program facts="+predsString(p.Facts)+" rules="+rulesString(p.Rules))
 	}
 	res.ModelCases = len(lines)
 	_ = cf
 	WriteShards(res, outDir, "C05", "Base Term Expr Datalog Corr", "", "dl_case", "dl_ok (fun _ _ => None)", lines, 500)
+}
+
+// cloneCheck: a world obtained with Clone() owns its rules.  The origin holds the program's facts
+// and k rules that can derive nothing (k chosen so that Go leaves spare capacity behind a slice
+// grown one element at a time); the clone receives the program's rules, THEN the origin receives
+// as many other rules.  Only the clone is run: its model must be the program's model.
+// (Facts are not added after cloning and the origin is not run: this is about rules.)
+func cloneCheck(res *Result, p dlProgram, direct dlObs, k int) {
+	var got []SPred
+	var errc string
+	pan := usable(func() {
+		syms := &datalog.SymbolTable{}
+		w := datalog.NewWorld(datalog.WithMaxFacts(p.MaxF), datalog.WithMaxIterations(p.MaxI), datalog.WithMaxDuration(20*time.Second))
+		for _, f := range p.Facts {
+			w.AddFact(datalog.Fact{Predicate: f.toDatalog(syms)})
+		}
+		filler := SRule{Head: SPred{Name: "zz_filler", Terms: []STerm{aVar("n")}}, Body: []SPred{{Name: "zz_none", Terms: []STerm{aVar("n")}}}}
+		for i := 0; i < k; i++ {
+			w.AddRule(filler.toDatalog(syms))
+		}
+		c := w.Clone()
+		for _, r := range p.Rules {
+			c.AddRule(r.toDatalog(syms))
+		}
+		for range p.Rules {
+			stranger := SRule{Head: SPred{Name: "zz_stranger"}, Body: []SPred{{Name: "zz_none", Terms: []STerm{aVar("n")}}}}
+			if len(p.Facts) > 0 {
+				b := SPred{Name: p.Facts[0].Name}
+				for i := range p.Facts[0].Terms {
+					b.Terms = append(b.Terms, aVar(fmt.Sprintf("v%d", i)))
+				}
+				stranger.Body = []SPred{b}
+			}
+			w.AddRule(stranger.toDatalog(syms))
+		}
+		errc = runErrClass(c.Run(syms))
+		for _, f := range *c.Facts() {
+			got = append(got, predFromDatalog(syms, f.Predicate))
+		}
+	})
+	res.Dist(fmt.Sprintf("clone-check:origin-rules:%d", k))
+	rep := map[string]interface{}{"facts": predsString(p.Facts), "rules_added_to_the_clone": rulesString(p.Rules), "origin_rules_before_clone": k, "direct_model": predsString(direct.Facts), "clone_model": predsString(got)}
+	if pan != "" {
+		res.Violate("panic:clone", "panic: "+pan, rep)
+		return
+	}
+	if errc == "ETimeout" {
+		return
+	}
+	a, b := []string{}, []string{}
+	for _, f := range direct.Facts {
+		a = append(a, f.String())
+	}
+	for _, f := range got {
+		b = append(b, f.String())
+	}
+	sort.Strings(a)
+	sort.Strings(b)
+	if errc != direct.Err || strings.Join(a, ";") != strings.Join(b, ";") {
+		res.Violate("clone-shares-rules", "a cloned world evaluated other rules than the ones it was given (rules added to the origin after cloning): error "+errc+" vs "+direct.Err, rep)
+	}
 }
